@@ -119,6 +119,12 @@ func runC10(c *Ctx) {
 			cfgs = append(cfgs, Cfg{Ext: e, TableAlign: 2, Unsafe: k&1 != 0, XHTML: k&2 != 0, HardWraps: k&4 != 0})
 		}
 	}
+	// extensions built with their own options: the renderer switches must reach them too
+	for _, e := range []string{"footnote", "typo", "gfm"} {
+		for k := 0; k < 8; k++ {
+			cfgs = append(cfgs, Cfg{Ext: e, Opts: true, TableAlign: 2, Unsafe: k&1 != 0, XHTML: k&2 != 0, HardWraps: k&4 != 0})
+		}
+	}
 	o := docOpts{exhaustiveLen: 2, corpus: true, random: 5000, mutants: 5000, randLines: 5000}
 	if !c.Quick() {
 		o = docOpts{exhaustiveLen: 3, corpus: true, random: 200000, randomTok: 16, mutants: 200000, randLines: 200000}
@@ -173,7 +179,7 @@ func runC10(c *Ctx) {
 		}
 		doTree := !dup && (len(d)%7 == 0 || len(d) < 12 || bytes.Contains(d, []byte("|")) || bytes.Contains(d, []byte("[^")))
 		for _, s := range all {
-			if s.cf.Ext != m.cf.Ext {
+			if s.cf.Ext != m.cf.Ext || s.cf.Opts != m.cf.Opts {
 				continue
 			}
 			if doTree {
